@@ -55,6 +55,11 @@ def yaml_text():
     outer = {"mid": ["struct", "FMIDDLE", middle], "mids": ["structarray", "FMIDDLE", 2, middle], "k": ["int", 64, True]}
     kinds["FNESTED"] = {"outer": ["struct", "FOUTER", outer], "outers": ["structarray", "FOUTER", 2, outer],
                         "inner": ["struct", "FINNER", inner], "inners": ["structarray", "FINNER", 3, inner], "tail": ["int", 16, True]}
+    # packet-style messages whose own fields are called like the two halves of a serialised Message
+    L.append("  FPACKET:\n    id: 3200\n    fields:\n      header: FINNER\n      data: byte[16]")
+    L.append("  FPACKET2:\n    id: 3201\n    fields:\n      header: int32\n      data: double\n      dataset: int16[4]")
+    kinds["FPACKET"] = {"header": ["struct", "FINNER", inner], "data": ["bytearray", 16]}
+    kinds["FPACKET2"] = {"header": ["int", 32, True], "data": ["float", 64], "dataset": ["intarray", 16, True, 4]}
     return "\n".join(L) + "\n", kinds
 
 
